@@ -356,6 +356,14 @@ func c17Validate(c *mon.Ctx, text string) {
 	}
 }
 
+var c17Judged int
+
+var (
+	c17RefOrigin string
+	c17Ref       *refaddr.BIP276
+	c17RefErr    error
+)
+
 func c17JudgeText(c *mon.Ctx, in *c17Text) {
 	c.Eval(1)
 	c.Count("corrupt:class:" + in.Class)
@@ -370,6 +378,35 @@ func c17JudgeText(c *mon.Ctx, in *c17Text) {
 	}
 	if err != nil {
 		c.Count("corrupt:lib-rejected")
+		// a refused text leaves no trace: the valid text it was derived from still decodes, and the
+		// library still encodes as it did, in the very next calls
+		if in.Origin != "" && in.Origin != in.Text {
+			if c17RefOrigin != in.Origin { // the reference's reading of the origin, once per origin
+				c17RefOrigin = in.Origin
+				c17Ref, c17RefErr = refaddr.DecodeBIP276(in.Origin)
+			}
+			if ref, rerr := c17Ref, c17RefErr; rerr == nil {
+				var again *bscript.BIP276
+				var aerr error
+				if c.Try("bscript.DecodeBIP276", func() { again, aerr = bscript.DecodeBIP276(in.Origin) }) {
+					if aerr != nil || again == nil || again.Prefix != ref.Prefix || again.Version != ref.Version || again.Network != ref.Network || !bytes.Equal(again.Data, ref.Data) {
+						c.Violationf("C17:valid-text-refused-right-after-a-refused-one", "DecodeBIP276(%q) right after the refused %q (class %s): %v / %+v", in.Origin, in.Text, in.Class, aerr, again)
+					} else {
+						c.Count("corrupt:origin-still-decodes-after-refusal")
+					}
+				}
+				if c17Judged++; c17Judged%5 == 0 { // and the encoder after a refusal
+					var e1, e2 string
+					if c.Try("bscript.EncodeBIP276", func() {
+						e1 = bscript.EncodeBIP276(bscript.BIP276{Prefix: ref.Prefix, Version: ref.Version, Network: ref.Network, Data: ref.Data})
+						_, _ = bscript.DecodeBIP276(in.Text)
+						e2 = bscript.EncodeBIP276(bscript.BIP276{Prefix: ref.Prefix, Version: ref.Version, Network: ref.Network, Data: ref.Data})
+					}) && e1 != e2 {
+						c.Violationf("C17:encoding-differs-right-after-a-refused-text", "EncodeBIP276 of one tuple gave %q, and %q right after DecodeBIP276 refused %q", e1, e2, in.Text)
+					}
+				}
+			}
+		}
 		if in.Class == "identity" {
 			if _, rerr := refaddr.DecodeBIP276(in.Text); rerr == nil {
 				// a valid specification text the decoder cannot read; reported by the rt judge with detail
